@@ -94,9 +94,14 @@ pub fn run(r: &Run) {
     r.prop("histories", r.tier.pick(20_000, 500_000), || tablehist::arb_case(r.tier.pick(40, 120), false), check);
     r.assume(TM_RULE);
     r.prop("tm-limits", r.tier.pick(60_000, 1_500_000), arb_tm_case, check_tm);
+    r.assume(super::c15s::RULE);
+    r.slow(|| r.prop("session-limits", r.tier.pick(2_500, 80_000), super::c15s::arb_case, super::c15s::check));
 }
 
 pub fn replay(sub: &str, case: &Value) -> Result<CheckResult, String> {
+    if sub == "session-limits" {
+        return super::c15s::replay(case);
+    }
     if sub == "tm-limits" {
         return Ok(check_tm(&decode_case(case)?));
     }
